@@ -389,6 +389,31 @@ func run(d *Data, q *gojq.Query, code *gojq.Code, w *world, input any, vars []an
 	return
 }
 
+// runBackground drains code.Run (no context) up to maxOut outputs.
+func runBackground(code *gojq.Code, input any, vars []any, maxOut int) (o outcome) {
+	defer func() {
+		if r := recover(); r != nil {
+			o.panicked = fmt.Sprintf("%v", r)
+		}
+	}()
+	it := code.Run(input, vars...)
+	for len(o.steps) < maxOut {
+		v, ok := it.Next()
+		if !ok {
+			o.exhausted = true
+			return
+		}
+		st := step{Ok: true}
+		if e, isErr := v.(error); isErr {
+			st.IsErr, st.Val = true, kernel.EncErr(e)
+		} else {
+			st.Val = kernel.Enc(v)
+		}
+		o.steps = append(o.steps, st)
+	}
+	return
+}
+
 func newWorld(d *Data) *world {
 	w := &world{ctx: simctx.New()}
 	w.ctx.Budget = d.Budget
@@ -493,6 +518,22 @@ func prepare(d *Data, maxOut int) (*prepared, *kernel.Violation) {
 			}
 			if len(o.steps) != 1 || !o.steps[0].IsErr || !o.exhausted {
 				return p, viol(d, "one-shot", "RunWithContext with %d variable values for %d variables must emit one error and then be exhausted; got %d outputs, exhausted=%v", len(vs), len(d.VarNames), len(o.steps), o.exhausted)
+			}
+		}
+	}
+	// The uncancelled run must not depend on a context being present at all: for programs that
+	// finish, Run (context.Background, no polls) yields the same sequence.
+	if p.code != nil && !d.ViaQuery && p.ref.exhausted && !p.ref.budgetHit && !p.ref.outCapHit && d.Mode != "B" {
+		bg := runBackground(p.code, p.input(), p.vars(), len(p.ref.steps)+8)
+		if bg.panicked != "" {
+			return p, viol(d, "panic", "Run (background context): panic inside gojq: %s", bg.panicked)
+		}
+		if len(bg.steps) != len(p.ref.steps) || bg.exhausted != p.ref.exhausted {
+			return p, viol(d, "ctx-changes-semantics", "Run yields %d outputs (exhausted=%v), RunWithContext with a context that is never cancelled yields %d (exhausted=%v)", len(bg.steps), bg.exhausted, len(p.ref.steps), p.ref.exhausted)
+		}
+		for i := range bg.steps {
+			if bg.steps[i].Val != p.ref.steps[i].Val {
+				return p, viol(d, "ctx-changes-semantics", "output #%d: Run yields %s, RunWithContext with a context that is never cancelled yields %s", i, kernel.Short(bg.steps[i].Val), kernel.Short(p.ref.steps[i].Val))
 			}
 		}
 	}
